@@ -21,11 +21,13 @@ CLAIMS = {
         text="Exhaustive decision on a finite object: for all three dialects every (operator production, LALR state holding "
              "its completed item, operator look-ahead) triple of the statically rebuilt LALR(1) action tables is compared with "
              "the reference SQL precedence/associativity order; the tables fix the grouping of every token string in every "
-             "expression context, so this covers all inputs at once. Does not decide evaluation against a reference engine.",
+             "expression context, so this covers all inputs at once; and the action of every operator production, interpreted on operand "
+             "stand-ins (a column, the same operator again, a constant, a tuple), builds one operation node with the written operator over "
+             "exactly its operands. Does not decide evaluation against a reference engine.",
         note="Trusted: sly's run-time driver Parser.parse (LR shift/reduce loop), CPython ast/re; sa/lalr.py (validated "
              "entry-for-entry against sly's generated tables during development; sly's own conflict resolver is compared as a "
              "truth table on every run).",
-        technique="static LALR(1) table reconstruction from source + exhaustive precedence-obligation scan"),
+        technique="static LALR(1) table reconstruction from source + exhaustive precedence-obligation scan + abstract interpretation of the operator actions"),
     "C05": dict(
         level="other", engine="grammar-lalr",
         text="Decides the structural conditions under which an LR driver with sly's panic-mode recovery accepts exactly the "
@@ -89,9 +91,11 @@ CLAIMS["C19"] = dict(
          "lexes back to exactly its token under the ordered master regex and every grammar token is reachable by the lexer; "
          "placeholder values are convertible by the grammar actions; every other suggestion is dominated by a successful "
          "re-parse of this call's tokens; the echoed text/caret width do not come from lexer-rewritten token values; the lexer "
-         "error callback always raises. Caret/line offset arithmetic over arbitrary layouts is NOT decided.",
+         "error callback always raises; error_location interpreted on token lists with source positions puts the carets under the offending token. "
+         "Caret/line offset arithmetic over arbitrary layouts is NOT decided.",
     note="Trusted: sly passes list(actions[state].keys()) as expected tokens (anchor checked); LALR tables as in C03. The "
-         "position arithmetic of error_location and LR(1)-exact acceptability of merged reduce look-aheads are outside.",
+         "position arithmetic of error_location is decided on 9 probe layouts only (interpreted: short, multi-line, 300-character lines, end of input); "
+         "LR(1)-exact acceptability of merged reduce look-aheads is outside.",
     technique="LALR table scan x interpreted suggestion filter x first-match lexer simulation; dominance of re-parse; interpreted lexer error callback")
 
 CLAIMS["C20"] = dict(
@@ -157,7 +161,9 @@ CLAIMS["C02"] = dict(
          "construct classes (dict key, production symbol, empty index, numeric conversion, arithmetic kinds, assert / "
          "constructor precondition, attribute of None or wrong kind, exception class, iteration, constructor signature) are "
          "either discharged or reported with the production that reaches them; non-action code on the path is checked for "
-         "exception classes, asserts, partial stdlib calls and complete made-up tokens. Termination, RecursionError and "
+         "exception classes, asserts, partial stdlib calls and complete made-up tokens; every action that decodes one data token is "
+         "additionally interpreted (fail-closed AST interpreter) on every short text the ordered lexer reads as that token and may only "
+         "return or raise ParsingException; no repeated group of a token pattern is ambiguous (no exponential backtracking). Termination in general, RecursionError and "
          "exceptions inside sly/re are NOT decided; constructs outside the ten classes are assumed non-raising.",
     note="Stated unsoundness: only the listed construct classes are considered raise-capable; unknown ('?') kinds are not "
          "reported. Trusted: sly's YaccProduction name map semantics (read from sly/yacc.py).",
@@ -202,7 +208,8 @@ CLAIMS["C01"] = dict(
          "shows is read by the SQL printer; a field is printed under its own guard only unless the grammar makes the guard "
          "implied (per-production constructor analysis); no printer puts a value between quote characters or uses repr() as "
          "SQL encoder; literal and identifier escaping agree with the lexer (codec tables of C04); single-token leaves print "
-         "text that lexes back to that token.",
+         "text that lexes back to that token; every node built directly from tokens (15 productions: intervals, typed literals, constants, "
+         "names) prints text whose token sequence the reconstructed LALR tables accept and reduce by an action that builds that class.",
     note="Necessary conditions only: keyword order / optional clauses / spacing of every get_string versus its grammar rule "
          "are the round trip itself and are not analysed; copy() is C18.",
     technique="abstract interpretation of parenthesis actions and leaf printers + reserved-set evaluation vs lexer simulation + printer/tree field matrices")
